@@ -1,6 +1,8 @@
 package chain
 
 import (
+	"os"
+
 	"verif/harness/lib"
 )
 
@@ -21,6 +23,12 @@ func (e *Env) Step(op lib.M) (out any, dbg any) {
 		if msg, ok := m["msg"]; ok {
 			d["msg"] = msg
 			delete(m, "msg")
+		}
+		// the verdict of the real stateless validation is an input of the model
+		if m["err"] == "verif/8" {
+			op["vb"] = false
+		} else {
+			delete(op, "vb")
 		}
 	}
 	if e.cur != nil && len(e.cur.Calls) > 0 {
@@ -64,6 +72,8 @@ func Run(env *Env, want map[string]bool, seed uint64, n, mon int, cs, vs *lib.Si
 	}
 	return found
 }
+
+func tier() string { return os.Getenv("VERIF_TIER") }
 
 func hashName(s string) uint64 {
 	h := uint64(1469598103934665603)
